@@ -1,4 +1,5 @@
 import AmrK.PestleMask
+import AmrK.PestleIntegral
 /-! # C09 — pestle integrates every point of the domain exactly once -/
 namespace C09
 open Pestle
@@ -10,6 +11,13 @@ theorem mask_correct (r : Nat) (fine : Level) (b : Box) (l0 l1 l2 h0 h1 h2 g0 g1
     (A : Aligned3 r fine b l0 l1 l2 h0 h1 h2 g0 g1 g2) :
     mask fine r b = some ((cells b.shape).map fun c => !covered fine b c) :=
   Pestle.mask_correct r fine b l0 l1 l2 h0 h1 h2 g0 g1 g2 A
+
+/-- **The integral is the sum over the cells not covered by a finer selected level of value × cell
+    volume: every point of the domain is counted exactly once** — any number of levels (the list is
+    already truncated to the level limit), any mix of box sizes aligned to the resolution `r`. -/
+theorem integral_eq_sum_over_uncovered (r : Nat) (lvls : List Level) (h : AlignedAll r lvls) :
+    integralGo r lvls = some (integralSpec lvls) :=
+  integralGo_eq_spec r lvls h
 
 /-- the per-axis arithmetic behind it: the mask lookup equals the true occupancy entry -/
 theorem mask_entry (r lo c : Nat) (hr : 0 < r) (heven : r % 2 = 0) (hal : (2 * lo) % r = 0) (hc : lo ≤ c) :
